@@ -193,6 +193,26 @@ let cmd_build (arg : string) : string =
          (render_out render_hash (encode_framed m))
          (render_out render_msg (from_bytes enc)))
 
+(* buildcont: the caller goes on after a refused add_field; the message is then what it was before *)
+let cmd_buildcont (arg : string) : string =
+  let fields = parse_fields arg in
+  let rec go i m errs = function
+    | [] -> (m, List.rev errs)
+    | (t, v) :: r ->
+      (match add_field m t v with
+       | Ok m' -> go (i + 1) m' errs r
+       | Err e -> go (i + 1) m (Printf.sprintf "%d:%s" i (render_err e) :: errs) r
+       | Panic _ -> failwith "add_field cannot panic")
+  in
+  let (m, errs) = go 0 [] [] fields in
+  let n = List.length m in
+  let head = Printf.sprintf "A=%s N=%d T=%d V=%d" (if errs = [] then "-" else String.concat "," errs) n n n in
+  let size = int_of_nat (encoded_size m) in
+  (match encode m with
+   | Panic _ -> Printf.sprintf "%s Z=%d E=PANIC" head size
+   | Err e -> Printf.sprintf "%s Z=%d E=ERR %s" head size (render_err e)
+   | Ok enc -> Printf.sprintf "%s Z=%d E=OK %s R=%s" head size (render_hash enc) (render_out render_msg (from_bytes enc)))
+
 (* spec side of build: canon and ref_decode (canon m) *)
 let cmd_build_spec (arg : string) : string =
   let fields = parse_fields arg in
@@ -746,6 +766,7 @@ let dispatch (line : string) : string =
   | "fbspec" -> cmd_fb ~spec:true rest
   | "build" -> cmd_build rest
   | "buildspec" -> cmd_build_spec rest
+  | "buildcont" -> cmd_buildcont rest
   | "padlen" -> cmd_padlen rest
   | "merkle" -> cmd_merkle rest
   | "classify" -> cmd_classify rest
